@@ -41,6 +41,11 @@ package main
 //	encryptCopies         arguments of every copy(...) in encrypt (first: explicit nonce := hc.seq)
 //	prefixNonceSealCopy   the copy statement of prefixNonceAEAD.Seal
 //	setWriteSeqSrc        (dtlcp) right-hand sides of c.out.seq[0..7] in setWriteSeq
+//	rxContentSources      for every non-hook function that calls `c.in.decrypt(`: every statement that
+//	                      gives a value to the variable holding decrypt's first result (the content that
+//	                      goes on to the record-type switch / the caller), as
+//	                      "<function>|<enclosing if/else/switch/select chain, `-` = none>|<statement>";
+//	                      the receive paths take a record's content from `decrypt` ONLY and UNCONDITIONALLY
 
 import (
 	"go/ast"
@@ -574,6 +579,7 @@ func emitKeys(e *emitter, p *pkg) {
 	}
 	e.strList("writeRecordCCS", ccs)
 	e.strList("writeRecordPerRecord", per)
+	e.strList("rxContentSources", rxContentSources(p))
 	// AD / MAC input construction
 	enc, dec := p.funcs["halfConn.encrypt"], p.funcs["halfConn.decrypt"]
 	e.strList("encryptADParts", appendsTo(p, enc, "additionalData"))
@@ -616,6 +622,115 @@ func emitKeys(e *emitter, p *pkg) {
 	e.strList("encryptCopies", flat(callArgsIn(p, enc, "copy")))
 	e.strList("prefixNonceSealCopy", flat(callArgsIn(p, p.funcs["prefixNonceAEAD.Seal"], "copy")))
 	e.strList("prefixNonceOpenCopy", flat(callArgsIn(p, p.funcs["prefixNonceAEAD.Open"], "copy")))
+}
+
+// rxContentSources: see the header comment. Loops are not part of the chain (every receive path
+// loops over records); conditions are (an `if` / `else` / `case` decides WHETHER a statement runs).
+func rxContentSources(p *pkg) []string {
+	var keys []string
+	for k := range p.funcs {
+		keys = append(keys, k)
+	}
+	sort.Strings(keys)
+	var out []string
+	for _, k := range keys {
+		fd := p.funcs[k]
+		if fd == nil || fd.Body == nil || strings.Contains(k, "Verif") || strings.Contains(k, "verif") {
+			continue
+		}
+		if f := p.fset.File(fd.Pos()); f != nil && strings.Contains(f.Name(), "verif_") {
+			continue
+		}
+		// the variable that receives decrypt's first result
+		name := ""
+		ast.Inspect(fd.Body, func(n ast.Node) bool {
+			if as, ok := n.(*ast.AssignStmt); ok && len(as.Rhs) == 1 && len(as.Lhs) >= 1 {
+				if ce, ok := as.Rhs[0].(*ast.CallExpr); ok && p.src(ce.Fun) == "c.in.decrypt" {
+					name = p.src(as.Lhs[0])
+				}
+			}
+			return true
+		})
+		if name == "" {
+			continue
+		}
+		var walk func(n ast.Node, chain string)
+		add := func(chain string, n ast.Node) {
+			if chain == "" {
+				chain = "-"
+			}
+			out = append(out, k+"|"+chain+"|"+strings.Join(strings.Fields(p.src(n)), " "))
+		}
+		join := func(chain, tag string) string {
+			if chain == "" {
+				return tag
+			}
+			return chain + ">" + tag
+		}
+		walk = func(n ast.Node, chain string) {
+			switch t := n.(type) {
+			case nil:
+				return
+			case *ast.BlockStmt:
+				for _, st := range t.List {
+					walk(st, chain)
+				}
+			case *ast.AssignStmt:
+				for _, l := range t.Lhs {
+					if p.src(l) == name {
+						add(chain, t)
+						break
+					}
+				}
+			case *ast.DeclStmt:
+				if gd, ok := t.Decl.(*ast.GenDecl); ok {
+					for _, sp := range gd.Specs {
+						if vs, ok := sp.(*ast.ValueSpec); ok {
+							for _, id := range vs.Names {
+								if id.Name == name {
+									add(chain, t)
+								}
+							}
+						}
+					}
+				}
+			case *ast.IfStmt:
+				if t.Init != nil {
+					walk(t.Init, chain)
+				}
+				walk(t.Body, join(chain, "if"))
+				if t.Else != nil {
+					if eb, ok := t.Else.(*ast.BlockStmt); ok {
+						walk(eb, join(chain, "else"))
+					} else {
+						walk(t.Else, join(chain, "else"))
+					}
+				}
+			case *ast.ForStmt:
+				walk(t.Body, chain)
+			case *ast.RangeStmt:
+				walk(t.Body, chain)
+			case *ast.SwitchStmt:
+				walk(t.Body, join(chain, "switch"))
+			case *ast.TypeSwitchStmt:
+				walk(t.Body, join(chain, "switch"))
+			case *ast.SelectStmt:
+				walk(t.Body, join(chain, "select"))
+			case *ast.CaseClause:
+				for _, st := range t.Body {
+					walk(st, chain)
+				}
+			case *ast.CommClause:
+				for _, st := range t.Body {
+					walk(st, chain)
+				}
+			case *ast.LabeledStmt:
+				walk(t.Stmt, chain)
+			}
+		}
+		walk(fd.Body, "")
+	}
+	return out
 }
 
 // callersOf lists the functions whose body calls `fun()` (source text of the callee).
